@@ -16,11 +16,13 @@ pub struct Naming {
     pub names: Vec<String>,
     pub bound_prefix: String,
     pub label: &'static str,
+    /// names to intern (in this order) before the history starts; empty = names are parsed lazily when first used
+    pub intern_first: Vec<usize>,
 }
 
 impl Naming {
     pub fn neutral() -> Naming {
-        Naming { names: (0..16).map(|i| format!("p{i}")).collect(), bound_prefix: "b".into(), label: "neutral" }
+        Naming { names: (0..16).map(|i| format!("p{i}")).collect(), bound_prefix: "b".into(), label: "neutral", intern_first: vec![] }
     }
     pub fn random(r: &mut Rng) -> Naming {
         let k = r.below(7);
@@ -40,15 +42,18 @@ impl Naming {
         }
         let bound_prefix = ["b", "f9", "v", "0"][r.below(4)].to_string();
         let label = ["numeric-asc", "numeric-desc", "fresh-like", "fresh-like-high", "textual-rev", "mixed", "p-permuted"][k];
-        // textual names are numbered by first interning: vary the interning order
+        // textual names are numbered by first interning: vary the interning order (performed by `prepare` in the thread that runs the history)
+        let mut intern_first = vec![];
         if k == 4 || k == 5 {
-            let mut order: Vec<usize> = (0..16).collect();
-            r.shuffle(&mut order);
-            for i in order {
-                let _ = Slot::named(&names[i]);
-            }
+            intern_first = (0..16).collect();
+            r.shuffle(&mut intern_first);
         }
-        Naming { names, bound_prefix, label }
+        Naming { names, bound_prefix, label, intern_first }
+    }
+    pub fn prepare(&self) {
+        for i in &self.intern_first {
+            let _ = Slot::named(&self.names[*i]);
+        }
     }
     pub fn name(&self, n: Name) -> String {
         if n >= BOUND {
@@ -424,25 +429,27 @@ pub fn c12_case(rng: &mut Rng, norders: usize) -> CaseOut {
 
 // ------------------------------------------------------------------------------------------- C11
 
-fn c11_eval(h: &MHist, nb: &Naming) -> Option<(String, String)> {
-    let na = Naming::neutral();
-    let order: Vec<usize> = (0..h.ops.len()).collect();
-    let h2 = h.clone();
-    let na2 = na.clone();
-    let order2 = order.clone();
-    // run A in a fresh thread (fresh slot table), B in this one
-    let oa = std::thread::Builder::new()
+/// one run of the history under a naming, in a fresh thread (fresh slot table): Ok(observation) or Err(panic site)
+fn run_fresh(h: &MHist, nm: &Naming) -> Result<Obs, Option<(usize, PanicInfo)>> {
+    let (h2, nm2) = (h.clone(), nm.clone());
+    std::thread::Builder::new()
         .stack_size(128 << 20)
         .spawn(move || {
-            install_thread_hook();
-            let r = execute(&h2, &na2, &order2, &[]).ok()?;
-            observe(&h2, &na2, &r, true).ok()
+            nm2.prepare();
+            let order: Vec<usize> = (0..h2.ops.len()).collect();
+            match execute(&h2, &nm2, &order, &[]) {
+                Ok(r) => observe(&h2, &nm2, &r, true).map_err(|p| Some((usize::MAX, p))),
+                Err(e) => Err(Some(e)),
+            }
         })
         .unwrap()
         .join()
-        .ok()??;
-    let rb = execute(h, nb, &order, &[]).ok()?;
-    let ob = observe(h, nb, &rb, true).ok()?;
+        .unwrap_or(Err(None))
+}
+
+fn c11_eval(h: &MHist, nb: &Naming) -> Option<(String, String)> {
+    let oa = run_fresh(h, &Naming::neutral()).ok()?;
+    let ob = run_fresh(h, nb).ok()?;
     diff(&oa, &ob, &["eqs", "live", "profile", "term-slots", "term-syms", "term-slot-names", "costs", "nodes"]).map(|d| (d.split(':').next().unwrap().to_string(), d))
 }
 
@@ -457,20 +464,19 @@ pub fn c11_case(rng: &mut Rng, lazy_f_names: bool) -> CaseOut {
         // hygiene lane of C17: user names f0.. / numeric 0.., first parsed when the operation needs them,
         // i.e. after internal fresh slots with the same printed names exist
         nb = if rng.chance(1, 2) {
-            Naming { names: (0..16).map(|i| format!("f{}", i)).collect(), bound_prefix: "f".into(), label: "lazy-fresh-like" }
+            Naming { names: (0..16).map(|i| format!("f{}", i)).collect(), bound_prefix: "f".into(), label: "lazy-fresh-like", intern_first: vec![] }
         } else {
-            Naming { names: (0..16).map(|i| format!("{}", i)).collect(), bound_prefix: "".into(), label: "lazy-numeric" }
+            Naming { names: (0..16).map(|i| format!("{}", i)).collect(), bound_prefix: "".into(), label: "lazy-numeric", intern_first: vec![] }
         };
     }
     let na = Naming::neutral();
     let cj = |h: &MHist| J::obj(vec![("history_neutral", J::arr_s(&h.text(&na))), ("history_renamed", J::arr_s(&h.text(&nb))), ("naming", J::s(nb.label))]);
-    let order: Vec<usize> = (0..h.ops.len()).collect();
-    if execute(&h, &na, &order, &[]).is_err() {
+    if run_fresh(&h, &na).is_err() {
         out.inconclusive = Some("history panicked (reported by C02/C08)".into());
         return out;
     }
     // a panic that only occurs under the renaming is a violation of equivariance
-    if let Err((oi, p)) = execute(&h, &nb, &order, &[]) {
+    if let Err(Some((oi, p))) = run_fresh(&h, &nb) {
         out.fail(Fail::panic("panic-only-under-renaming", &p, &format!("operation {oi} under naming {}", nb.label), cj(&h)));
         return out;
     }
